@@ -9,7 +9,6 @@ package lint
 
 import (
 	"fmt"
-	"sort"
 	"strconv"
 	"strings"
 
@@ -171,8 +170,8 @@ func logWSP(p *Program, obs *obSet, fn *ssa.Function, checkOffset bool) {
 			w := sites.list[i]
 			if !v.ErrNil(w.fr, w.call) {
 				v.Note("%s: %s", p.InstrPos(in), what)
-				obs.fail(errKey(i), p.InstrPos(w.call),
-					fmt.Sprintf("%s is reached although the error of the write is not known to be nil", what), v.Path())
+				obs.failErr(errKey(i), p.InstrPos(w.call),
+					fmt.Sprintf("%s is reached although the error of the write is not known to be nil", what), v.Path(), []*ssa.Call{w.call})
 			} else {
 				obs.ok(errKey(i), p.InstrPos(w.call), "the write's error is known nil at every publish point", "publish: "+what)
 			}
@@ -192,8 +191,8 @@ func logWSP(p *Program, obs *obSet, fn *ssa.Function, checkOffset bool) {
 			sy := sites.list[j]
 			if !v.ErrNil(sy.fr, sy.call) {
 				v.Note("%s: %s", p.InstrPos(in), what)
-				obs.fail(syncKey(i), p.InstrPos(sites.list[i].call),
-					fmt.Sprintf("%s is reached although the result of %s is not known to be nil (failure path, or error not tested)", what, siteKey(sy.fr, sy.call)), v.Path())
+				obs.failErr(syncKey(i), p.InstrPos(sites.list[i].call),
+					fmt.Sprintf("%s is reached although the result of %s is not known to be nil (failure path, or error not tested)", what, siteKey(sy.fr, sy.call)), v.Path(), []*ssa.Call{sy.call})
 			} else {
 				obs.ok(syncKey(i), p.InstrPos(sites.list[i].call), "every path to a publish point passes a successful Sync of the log file",
 					"sync: "+siteKey(sy.fr, sy.call), "publish: "+what)
@@ -281,6 +280,15 @@ func logWSP(p *Program, obs *obSet, fn *ssa.Function, checkOffset bool) {
 	if s.Overflow {
 		obs.undecided("log file write ordering in "+fname, p.Pos(fn.Pos()), "path exploration exceeded its bound")
 		return
+	}
+	if in := s.DeferredMatch(func(in ssa.Instruction) bool {
+		if _, fld := storeField(in); fld == entriesFld {
+			return true
+		}
+		k, f, _ := fileEvent(in)
+		return (k == "write" || k == "truncate" || k == "sync") && fieldLoad(nil, f, fileFld)
+	}); in != nil {
+		obs.undecided("log file write ordering in "+fname, p.InstrPos(in), "a deferred function, or a helper beyond the inlining depth, writes, syncs or publishes the log; the rule does not order those")
 	}
 	if len(reached) == 0 {
 		obs.lost("write to the log file in " + fname)
@@ -397,8 +405,12 @@ func tmpClean(p *Program, obs *obSet, fname, fieldSpec string) {
 			obs.ok(keyClean, p.InstrPos(c.call), "every return of a non-nil storage is preceded by a successful RemoveTmpFiles", rel, "directory: "+describe(c.fr, arg))
 		}
 		if !good {
+			var cs []*ssa.Call
+			for _, f := range stFlags(v.St, "C") {
+				cs = append(cs, sites.at(f[0]).call)
+			}
 			v.Note("%s: return of a non-nil storage", p.InstrPos(in))
-			obs.fail(keyClean, p.InstrPos(in), "a non-nil storage is returned on a path that has not passed a successful fileutil.RemoveTmpFiles", v.Path())
+			obs.failErr(keyClean, p.InstrPos(in), "a non-nil storage is returned on a path that has not passed a successful fileutil.RemoveTmpFiles", v.Path(), cs)
 		}
 		return v.St, true
 	}
@@ -443,5 +455,3 @@ func reportErrOutcome(p *Program, obs *obSet, key string, c *ssa.Call, out *errO
 		obs.ok(key, pos, fmt.Sprintf("failure paths: %d return a non-nil error, %d end in a no-return call; none reaches %s", out.FailReturns, out.FailNoReturn, publishWhat))
 	}
 }
-
-var _ = sort.Strings
